@@ -365,6 +365,11 @@ func (e *env) judge(d *desc) verdict {
 
 	case kMessageUpdated:
 		x := m.msgByRID(d.msgRID)
+		if x == nil && hasBox(d.boxes, recoveryRID) {
+			// unknown message and the protected mailbox: ignored (no create / element skipped) or refused; nothing changes
+			return lenient("message-updated-protected-mailbox-unknown-message", nil)
+		}
+
 		if x == nil {
 			if !d.allowCreate {
 				return noop("unknown-message-no-create") // documented: "Message not found, skipping update"
